@@ -221,26 +221,43 @@ def splitKV (s : String) : String × String :=
 /-- judge one L2 case: `e2e … want.<k>=<v> … => got.<k>=<v> …`: the scenario line states what client and
     target must observe (what was sent, the target's status, promptness, no goroutine left; `*` = any),
     the harness prints what they did observe on the real code; every wanted field must be matched. -/
-def judgeE2E (fs : List String) (out : List String) : String :=
+def judgeE2E (op : String) (fs : List String) (out : List String) : String :=
   let want := (fs.filter (·.startsWith "want.")).map (fun s => splitKV (s.drop 5).toString)
   let got := (out.filter (·.startsWith "got.")).map (fun s => splitKV (s.drop 4).toString)
-  if out.any (·.startsWith "HARNESS") || out.any (·.startsWith "PANIC") then s!"BAD {out}"
+  if out.any (·.startsWith "HARNESS") || out.any (·.startsWith "PANIC") || got.any (fun (k, _) => k.endsWith "HARNESS") then
+    s!"BAD {out}"
   else if want.isEmpty then "BAD e2e-no-expectation"
   else
-    let bad := want.find? (fun (k, v) => v ≠ "*" && got.lookup k ≠ some v)
-    match bad with
-    | some (k, v) => s!"VIOL e2e {k} want={v.take 40} got={((got.lookup k).getD "<missing>").take 40}"
+    -- a case (or one call of a multi-call case) that did not finish within its watchdog
+    match got.find? (fun (k, v) => k.endsWith "hang" && v = "1") with
+    | some (k, _) => s!"VIOL {op} hang {k}=1"
     | none =>
-      let sc := (fs.find? (·.startsWith "sc=")).getD "sc=?"
-      let en := match fs.find? (·.startsWith "en=") with
-        | some e => (e.drop 3).toString ++ "-"
-        | none => ""
-      s!"OK nt b=e2e-{en}{(sc.drop 3).toString}"
+      let mism := fun (kv : String × String) => kv.2 ≠ "*" && got.lookup kv.1 ≠ some kv.2
+      match want.find? mism with
+      | some (k, v) =>
+        let g := ((got.lookup k).getD "<missing>").take 40
+        -- the target must see exactly ONE call per bridged call, with each request once, and ITS status must arrive
+        let dupCalls := want.any (fun kv => kv.1.endsWith "tcalls" && mism kv)
+        let why :=
+          if k.endsWith "tcalls" then "request-duplicated target-saw-one-call"
+          else if k.endsWith "treq" && dupCalls then "request-duplicated"
+          else if k.endsWith "status" && dupCalls then "status-replaced"
+          else if k.endsWith "gor" then "goroutine-left"
+          else ""
+        s!"VIOL {op} {why} {k} want={v.take 40} got={g}"
+      | none =>
+        let sc := (fs.find? (fun f => f.startsWith "sc=" || f.startsWith "a=")).getD "sc=?"
+        let en := match fs.find? (·.startsWith "en=") with
+          | some e => (e.drop 3).toString ++ "-"
+          | none => ""
+        s!"OK nt b={op}-{en}{(splitKV sc).2}"
 
 def judge : Handler
   | "fwd" :: fs, out => judgeFwd fs out
-  | "e2e" :: fs, out => judgeE2E fs out
-  | "web" :: fs, out => judgeE2E fs out
+  | "e2e" :: fs, out => judgeE2E "e2e" fs out
+  | "web" :: fs, out => judgeE2E "e2e" fs out
+  | "real" :: fs, out => judgeE2E "real" fs out
+  | "multi" :: fs, out => judgeE2E "multi" fs out
   | _, _ => "BAD c01 line"
 
 def handle : Handler := judge
